@@ -518,6 +518,34 @@ def family_kinds():
     }
     specs.append(RawSpec(files, 'fields of a struct reached through a defined pointer type next to a provider of the plain pointer type (value and pointer-to-field)', family='kinds'))
     specs[-1].extra_props = ['C06', 'C12']
+    # a field of empty-interface type read through a pointer-form source: the value form is the field, not its address
+    files = {
+        'providers.go': ('package {PKG}\n\nimport "example.com/corpus/vrt"\n\ntype Cfg struct{ Payload interface{} }\ntype H struct{ ID int }\ntype G struct{ ID int }\n\n'
+                         'func NewCfg() *Cfg {\n\tid, _ := vrt.Call(1, false)\n\treturn &Cfg{Payload: id}\n}\n\n'
+                         'func NewH(v interface{}) H {\n\tn, ok := v.(int)\n\tif !ok {\n\t\tn = -1\n\t}\n\tid, _ := vrt.Call(0, false, n)\n\treturn H{ID: id}\n}\n\n'
+                         'func NewG(p *interface{}) G {\n\tn, ok := (*p).(int)\n\tif !ok {\n\t\tn = -1\n\t}\n\tid, _ := vrt.Call(0, false, n)\n\treturn G{ID: id}\n}\n'),
+        'wire.go': ('//go:build wireinject\n// +build wireinject\n\npackage {PKG}\n\nimport "github.com/google/wire"\n\nfunc InjectH() H {\n\tpanic(wire.Build(NewCfg, wire.FieldsOf(new(*Cfg), "Payload"), NewH))\n}\n\n'
+                    'func InjectG() G {\n\tpanic(wire.Build(NewCfg, wire.FieldsOf(new(*Cfg), "Payload"), NewG))\n}\n'),
+        'zz_driver.go': ('//go:build !wireinject\n// +build !wireinject\n\npackage {PKG}\n\nimport "example.com/corpus/vrt"\n\nfunc VDrive() {\n'
+                         '\tspec := &vrt.Spec{Nodes: []vrt.Node{{Name: "consumer", Kind: vrt.KFunc, Params: []vrt.Ref{{Node: 1}}}, {Name: "NewCfg", Kind: vrt.KFunc}}, Result: []vrt.Ref{{Node: 0}}, ArgIDs: make([][]int, 2)}\n'
+                         '\tvrt.Reset()\n\th := InjectH()\n\tvrt.Check(spec, vrt.Outcome{Result: []int{h.ID}, CleanupNil: true})\n\tvrt.Reset()\n\tg := InjectG()\n\tvrt.Check(spec, vrt.Outcome{Result: []int{g.ID}, CleanupNil: true})\n}\n'),
+    }
+    specs.append(RawSpec(files, 'field of empty-interface type through a pointer-form source, consumed as a value and as a pointer to the field', family='kinds'))
+    specs[-1].extra_props = ['C12', 'C02']
+    # an injector whose result is an interface bound to a value type, over providers that can fail: nil on failure
+    files = {
+        'providers.go': ('package {PKG}\n\nimport "example.com/corpus/vrt"\n\ntype Store interface{ VID() int }\ntype MemStore struct{ ID int }\ntype Conf struct{ ID int }\n\nfunc (m MemStore) VID() int { return m.ID }\n\n'
+                         'func NewConf() (Conf, func(), error) {\n\tid, err := vrt.Call(2, true)\n\tif err != nil {\n\t\treturn Conf{}, vrt.FailedCleanupFn(2), err\n\t}\n\treturn Conf{ID: id}, vrt.CleanupFn(2), nil\n}\n\n'
+                         'func NewMem(c Conf) (MemStore, error) {\n\tid, err := vrt.Call(1, true, c.ID)\n\tif err != nil {\n\t\treturn MemStore{}, err\n\t}\n\treturn MemStore{ID: id}, nil\n}\n'),
+        'wire.go': ('//go:build wireinject\n// +build wireinject\n\npackage {PKG}\n\nimport "github.com/google/wire"\n\nfunc Inject() (Store, func(), error) {\n\tpanic(wire.Build(NewConf, NewMem, wire.Bind(new(Store), new(MemStore))))\n}\n'),
+        'zz_driver.go': ('//go:build !wireinject\n// +build !wireinject\n\npackage {PKG}\n\nimport "example.com/corpus/vrt"\n\nfunc VDrive() {\n'
+                         '\tspec := &vrt.Spec{RetErr: true, RetCleanup: true, Nodes: []vrt.Node{{Name: "unused", Kind: vrt.KArg}, {Name: "NewMem", Kind: vrt.KFunc, HasErr: true, Params: []vrt.Ref{{Node: 2}}}, {Name: "NewConf", Kind: vrt.KFunc, HasErr: true, HasCleanup: true}}, Result: []vrt.Ref{{Node: 1}}}\n'
+                         '\tfor round := 0; round < 2; round++ {\n\t\tvrt.Round = round\n\t\tvrt.Reset()\n\t\tspec.ArgIDs = make([][]int, 3)\n\t\tres, cleanup, err := Inject()\n'
+                         '\t\tvrt.A("C03", err == nil || res == nil, "on failure an injector whose result is an interface returns nil, not a zero value of the bound type")\n'
+                         '\t\trid := 0\n\t\tif res != nil {\n\t\t\trid = res.VID()\n\t\t}\n\t\tout := vrt.Outcome{Result: []int{rid}}\n\t\tout.Cleanup = cleanup\n\t\tout.CleanupNil = cleanup == nil\n\t\tout.Err = err\n\t\tvrt.Check(spec, out)\n\t}\n}\n'),
+    }
+    specs.append(RawSpec(files, 'interface result bound to a value type over providers that can fail (nil interface on failure)', family='kinds', compile_props=['C01', 'C03']))
+    specs[-1].extra_props = ['C03']
     # an injector that calls nothing and returns one of its arguments through a binding, while other arguments
     # also implement the interface (the bound one must be returned, whatever its position)
     for bound in (0, 1, 2):
@@ -769,6 +797,8 @@ VALUE_EXPRS = [
     ('[]int', 'Sl3[1:3:3]'),        # full slice expression: length and capacity matter
     ('[]int', 'Sl3[:2]'),
     ('[]int', 'Arr[1:][:1:2]'),
+    ('int', '[][]int{{Base, 2}, {3}}[0][0]'),        # nested literals with elided inner types
+    ('int', 'map[string]S{"a": {ID: Base}}["a"].ID'),
 ]
 
 
@@ -948,6 +978,15 @@ def family_values():
         'wire.go': '//go:build wireinject\n// +build wireinject\n\npackage {PKG}\n\nimport "github.com/google/wire"\n\nfunc Inject(cfg Cfg) (int, func(), error) {\n\tpanic(wire.Build(wire.Value(cfg.Port)))\n}\n',
     }
     specs.append(RawSpec(files, 'rejected value form: an injector parameter (a package-level namesake exists), injector returning (int, func(), error)', expect='reject', reject_props=['C13'], family='values'))
+    # the value's home package has the same *name* as the injector's package (another path): its variables are still its own
+    files = {
+        'providers.go': 'package {PKG}\n\nvar Endpoint = 1\n',
+        'wire.go': ('//go:build wireinject\n// +build wireinject\n\npackage {PKG}\n\nimport (\n\t"github.com/google/wire"\n\tlib "example.com/corpus/{PKG}/lib"\n)\n\nfunc Inject() int {\n\tpanic(wire.Build(lib.Set))\n}\n'),
+        'zz_driver.go': ('//go:build !wireinject\n// +build !wireinject\n\npackage {PKG}\n\nimport (\n\t"example.com/corpus/vrt"\n\tlib "example.com/corpus/{PKG}/lib"\n)\n\nfunc VDrive() {\n'
+                         '\tvrt.A("C13", Inject() == lib.Endpoint && Inject() != Endpoint, "a value written in a package that has the injector package\'s name (another path) refers to its own variables")\n\tvrt.Cover("values-checked")\n}\n'),
+    }
+    specs.append(RawSpec(files, 'value written in a package whose name equals the injector package\'s name (different import path), namesake variable in both', family='values',
+                         extra_pkgs={'lib': {'lib.go': 'package {PKG}\n\nimport (\n\t"example.com/corpus/vrt"\n\t"github.com/google/wire"\n)\n\nvar Endpoint = vrt.ArgID("base") + 7\n\nvar Set = wire.NewSet(wire.Value(Endpoint))\n'}}))
     # ... and the accessible counterparts (exported field / method value of an exported variable) are accepted
     files = {
         'providers.go': 'package {PKG}\n',
@@ -999,6 +1038,8 @@ def family_reject():
         (['C06'], 'a defined type whose underlying type is provided', 'MyA', 'NewA, NeedsMyA'),
         (['C09'], 'struct provider "*" with two fields of identical type', 'Twin', 'NewA, wire.Struct(new(Twin), "*")'),
         (['C09'], 'struct provider naming two fields of identical type', 'Twin', 'NewA, wire.Struct(new(Twin), "X", "Y")'),
+        (['C09'], 'provider whose third result is a concrete type implementing error', 'A', 'NewAMyErr'),
+        (['C09'], 'provider whose second result is a concrete type implementing error', 'A', 'NewAMyErr2'),
         (['C09', 'C20'], 'injector without results', '', 'NewA'),
         (['C09', 'C20'], 'injector without results and with a parameter', '', 'NewB', 'a A'),
         # the same source reached twice / sibling sets, through every way the front end merges sets
@@ -1020,7 +1061,7 @@ def family_reject():
         (['C07'], 'provider depending on its own result', 'Self', 'NewSelf'),
         (['C07'], 'cycle of three providers behind a value', 'B', 'NewA, NewB, wire.NewSet(NewC3a, NewC3b, NewC3c)'),
     ]
-    extra = 'type SP *S\nfunc NewSPtr() *S { return &S{} }\ntype MyA A\nfunc NeedsMyA(m MyA) MyA { return m }\nfunc NewSFromCV(c C) S { return S{} }\ntype Twin struct{ X A; Y A }\ntype J2 interface{ Other() }\ntype J interface{ Other() }\ntype jimpl struct{}\nfunc (jimpl) Other() {}\nfunc NewJ() J { return jimpl{} }\nfunc NewSpelled(lo uint8, hi byte) B { return B{} }\ntype Hooks struct {\n\tBefore func(req string) error\n\tAfter  func(resp string) error\n}\ntype CycA struct{}\ntype CycB struct{}\nfunc NewCycA(b CycB) CycA { return CycA{} }\nfunc NewCycB(a CycA) CycB { return CycB{} }\nfunc NoResult() {}\n'
+    extra = 'type MyErr struct{}\nfunc (*MyErr) Error() string { return "" }\nfunc NewAMyErr() (A, func(), *MyErr) { return A{}, nil, nil }\nfunc NewAMyErr2() (A, *MyErr) { return A{}, nil }\ntype SP *S\nfunc NewSPtr() *S { return &S{} }\ntype MyA A\nfunc NeedsMyA(m MyA) MyA { return m }\nfunc NewSFromCV(c C) S { return S{} }\ntype Twin struct{ X A; Y A }\ntype J2 interface{ Other() }\ntype J interface{ Other() }\ntype jimpl struct{}\nfunc (jimpl) Other() {}\nfunc NewJ() J { return jimpl{} }\nfunc NewSpelled(lo uint8, hi byte) B { return B{} }\ntype Hooks struct {\n\tBefore func(req string) error\n\tAfter  func(resp string) error\n}\ntype CycA struct{}\ntype CycB struct{}\nfunc NewCycA(b CycB) CycA { return CycA{} }\nfunc NewCycB(a CycA) CycB { return CycB{} }\nfunc NoResult() {}\n'
     extra += ('type Fooer interface{ Foo() }\ntype Foo struct{}\nfunc (*Foo) Foo() {}\nfunc NewFoo(f Fooer) *Foo { return &Foo{} }\ntype Other struct{}\nfunc NewOther() Other { return Other{} }\n'
               'type SA struct{ B CycB2 }\ntype CycB2 struct{}\nfunc NewCycB2(a SA) CycB2 { return CycB2{} }\ntype G struct{}\ntype SF struct{ G G }\nfunc NewSF(g G) SF { return SF{} }\n'
               'type Self struct{}\nfunc NewSelf(s Self) Self { return s }\ntype C3a struct{}\ntype C3b struct{}\ntype C3c struct{}\nfunc NewC3a(x C3c) C3a { return C3a{} }\nfunc NewC3b(x C3a) C3b { return C3b{} }\nfunc NewC3c(x C3b) C3c { return C3c{} }\n')
@@ -1375,6 +1416,16 @@ def family_frontend():
         'wire.go': '//go:build wireinject\n// +build wireinject\n\npackage {PKG}\n\nimport . "github.com/google/wire"\n\nfunc Inject() I {\n\tpanic(Build(NewP, NewPP, Bind(new(I), new(P))))\n}\n',
     }
     specs.append(RawSpec(files, 'must be rejected: under a dot import, Bind(new(I), new(P)) where only *P has the method', expect='reject', reject_props=['C11'], family='frontend'))
+    # --- a copied function whose local is renamed (it collides with an import name of the generated file) and which
+    #     selects a struct field spelled like that local
+    files = {
+        'providers.go': 'package {PKG}\n\ntype Cfg struct {\n\tstrings  []string\n\tstrings2 []string\n}\n\ntype Out struct{ S string }\n\nfunc NewOut() Out { return Out{S: joined(Cfg{strings: []string{"a", "b"}, strings2: []string{"x"}})} }\n',
+        'wire.go': ('//go:build wireinject\n// +build wireinject\n\npackage {PKG}\n\nimport (\n\tstr "strings"\n\n\t"github.com/google/wire"\n)\n\nfunc Inject() Out {\n\tpanic(wire.Build(NewOut))\n}\n\n'
+                    'func joined(cfg Cfg) string {\n\tstrings := str.ToUpper("sep")\n\t_ = strings\n\treturn str.Join(cfg.strings, ",") + "|" + str.Join(cfg.strings2, ",")\n}\n'),
+        'zz_driver.go': ('//go:build !wireinject\n// +build !wireinject\n\npackage {PKG}\n\nimport "example.com/corpus/vrt"\n\nfunc VDrive() {\n'
+                         '\tvrt.A("C15,C14", Inject().S == "a,b|x", "renaming a local of a copied function leaves equally spelled field selectors alone")\n\tvrt.Cover("zoo-checked")\n}\n'),
+    }
+    specs.append(RawSpec(files, 'copied function with a local named like an import of the generated file and struct fields spelled like that local and like its replacement', family='frontend', compile_props=['C01', 'C15', 'C14']))
     # --- two injector files that use one identifier for two different packages; each has a copied helper calling into its package
     files = {
         'providers.go': 'package {PKG}\n\ntype Label struct{ S string }\ntype Secret struct{ S string }\n\nfunc NewLabel() Label   { return Label{S: encodeLabel("a")} }\nfunc NewSecret() Secret { return Secret{S: encodeSecret("a")} }\n',
